@@ -389,8 +389,8 @@ class OracleQueryBuilder(FetchNextAndOffsetRowsQueryBuilder):
 
     def get_sql(self, *args: Any, **kwargs: Any) -> str:
         # Oracle does not support group by a field alias
-        # Note: set directly in kwargs as they are re-used down the tree in the case of subqueries!
-        kwargs['groupby_alias'] = False
+        # Note: set in kwargs as they are re-used down the tree in the case of subqueries; the outermost statement decides
+        kwargs.setdefault('groupby_alias', False)
         return super().get_sql(*args, **kwargs)
 
     def _apply_pagination(self, querystring: str, **kwargs) -> str:
@@ -771,8 +771,8 @@ class MSSQLQueryBuilder(FetchNextAndOffsetRowsQueryBuilder):
 
     def get_sql(self, *args: Any, **kwargs: Any) -> str:
         # MSSQL does not support group by a field alias.
-        # Note: set directly in kwargs as they are re-used down the tree in the case of subqueries!
-        kwargs['groupby_alias'] = False
+        # Note: set in kwargs as they are re-used down the tree in the case of subqueries; the outermost statement decides
+        kwargs.setdefault('groupby_alias', False)
         return super().get_sql(*args, **kwargs)
 
     def _top_sql(self) -> str:
